@@ -703,11 +703,8 @@ func genQuery(w *vh.W, c *jcase) {
 	default:
 		c.Req = "groupnone"
 	}
-	// field-value comparisons in a third of the predicates.  Not for GroupBy over more than 12
-	// rows: the filter state of the shared cursors then depends on the row order produced by Go's
-	// unstable sort.Slice, which the model does not reproduce.
-	rows := storedRows(c.Shards)
-	genVal = r.IntN(3) == 0 && !(c.Req == "groupby" && len(rows) > 12)
+	// field-value comparisons in a third of the predicates
+	genVal = r.IntN(3) == 0
 	genMaxVal = 0
 	for _, sh := range c.Shards {
 		for _, sd := range sh.Data {
@@ -893,7 +890,6 @@ func staleShape(c *jcase) bool {
 }
 
 // known-finding signatures, decided from the INPUT shape only
-const sigStale = "stale-value-filter-across-series"
 const sigMaxTime = "point-at-max-nano-time-unreadable"
 const sigNulKey = "group-key-nul-collision"
 
@@ -921,9 +917,7 @@ func signature(c *jcase) string {
 	if hasNul && c.Req == "groupby" && len(c.Keys) >= 2 {
 		return sigNulKey
 	}
-	if staleShape(c) {
-		return sigStale
-	}
+
 	return ""
 }
 
@@ -932,6 +926,9 @@ func record(w *vh.W, c *jcase, fail string) {
 	idx := w.Add(caseTerm(c), c, nontrivial(c), sig)
 	if sig != "" {
 		w.Count("known_finding_shape", sig)
+	}
+	if staleShape(c) { // the shape of the defect repaired by fix e5cbc6eccf: no longer tolerated
+		w.Count("shape", "rows with and without value condition, same field type, >= 2 shards")
 	}
 	if fail != "" {
 		w.Fail(idx, fail, sig)
@@ -968,7 +965,7 @@ func runCase(w *vh.W, e *env, c *jcase) {
 
 func main() {
 	w := vh.New("C21", "From Coq Require Import String Ascii.\nFrom Verif Require Import Base.Prelude Model.C21.\nOpen Scope string_scope.", "case", "check")
-	w.Rule = "dataset: 1-3 shard groups of 10ns (at 0,10,20; random creation order; a third flushed to TSM half-way), 1-7 (sometimes 10-18) series out of 2 measurements x {t0,t1} x {absent,a,b}, fields f0(int)/f1(float)/f2(int), 1-6 points per series-field-shard biased to the first/last instant of the shard, all values distinct; 6 (12 when n >= 2000) requests per dataset: ReadFilter / ReadGroup(GroupBy|GroupNone, 0-3 keys of t0,t1,_measurement,_field,tx, HintSchemaAllTime 1/5) with range ends from {MinInt64, MinNanoTime, shard boundaries +-1, random in [-2,33), MaxNanoTime, MaxInt64} and a predicate (3/4) of depth <= 2 over = / != on _measurement,_field,t0,t1,tx with AND/OR/parentheses; in a third of the requests (not for GroupBy over > 12 rows) leaves are also field-value comparisons ($ = != < <= > >= integer literal within the data set's value range). Non-trivial: >= 2 returned rows have points and (when there are >= 2 shards) some row has points of more than one shard. Distinct: distinct Gallina terms."
+	w.Rule = "dataset: 1-3 shard groups of 10ns (at 0,10,20; random creation order; a third flushed to TSM half-way), 1-7 (sometimes 10-18) series out of 2 measurements x {t0,t1} x {absent,a,b}, fields f0(int)/f1(float)/f2(int), 1-6 points per series-field-shard biased to the first/last instant of the shard, all values distinct; 6 (12 when n >= 2000) requests per dataset: ReadFilter / ReadGroup(GroupBy|GroupNone, 0-3 keys of t0,t1,_measurement,_field,tx, HintSchemaAllTime 1/5) with range ends from {MinInt64, MinNanoTime, shard boundaries +-1, random in [-2,33), MaxNanoTime, MaxInt64} and a predicate (3/4) of depth <= 2 over = / != on _measurement,_field,t0,t1,tx with AND/OR/parentheses; in a third of the requests leaves are also field-value comparisons ($ = != < <= > >= integer literal within the data set's value range). Non-trivial: >= 2 returned rows have points and (when there are >= 2 shards) some row has points of more than one shard. Distinct: distinct Gallina terms."
 	var rc jcase
 	if w.ReplayCase(&rc) {
 		e := newEnv(rc.Shards)
